@@ -60,7 +60,10 @@ package protocol
 //@ func (*Tunnel).Read
 //@   requires[C10] wf: t != nil && t.transportIn != nil
 //@   requires[C01] quiet: !#errSent && !#closeOK
-//@   assigns t.BytesReceived, t.LastSeen, #lastNow, #reads, #prevChunk, #lastChunk, #readFailed, #cur
+//@   requires[C08] carried: pendingOK(t.pending)
+//@   assigns t.pending, t.BytesReceived, t.LastSeen, #lastNow, #reads, #prevChunk, #lastChunk, #readFailed, #cur, #consumed
+//@   ensures[C08] framed: err == nil ==> framed(pt, size, pkt, old(#consumed)) && #consumed == old(#consumed) + size
+//@   ensures[C08] carried: err == nil ==> pendingOK(t.pending)
 //@   nopanic[C10]
 
 // ---------------------------------------------------------------- packet builders and decoders
@@ -145,25 +148,21 @@ package protocol
 
 //@ define framed(pt, n, msg, c0) = n == int(le32(#stream, c0 + 4)) && n >= 8 && pt == int(le16(#stream, c0)) && len(msg) == n - 8 && matches(msg, #stream, c0 + 8)
 
-// packet boundaries come from the length field of the stream, not from how the transport cut it (C08)
+// packet boundaries come from the length fields of the stream, not from how the transport cut it (C08):
+// #stream is every byte the client will ever send, #cur how many of them the transport has delivered,
+// #consumed how many have been handed out as packets; the bytes in between are exactly *pending
+//@ define pendingOK(pend) = 0 <= #consumed && #consumed <= #cur && #cur <= 0x1000000000000000 && len(pend) == #cur - #consumed && matches(pend, #stream, #consumed)
 //@ func readMessage
-//@   requires[C10] in != nil
+//@   requires[C10] in != nil && pending != nil
 //@   requires[C01] quiet: !#errSent && !#closeOK
-//@   requires[C08] position: 0 <= #cur && #cur <= 0x10000000000 && 0 <= #reads && #reads <= 0x10000000000
-//@   assigns[C07] #reads, #prevChunk, #lastChunk, #readFailed, #cur
-//@   loop 0 invariant index: 0 <= index && index <= 4096 && len(buf) == 4096 && cap(buf) == 4096
-//@   loop 0 invariant[C08] whole: !fragment ==> #reads == old(#reads) && #cur == old(#cur)
-//@   loop 0 invariant[C08] partial: fragment ==> #reads == old(#reads) + 1 && 0 <= #lastChunk && #cur == old(#cur) + #lastChunk && index == ite(#lastChunk < 4096, #lastChunk, 4096) && matches(buf, #stream, old(#cur), index)
-//@   site readHeader requires[C08] window: (#reads == old(#reads) + 1 || #prevChunk <= 4096) ==> matches(arg0, #stream, old(#cur))
-//@   ensures[C08] oneRead: err == nil && #reads == old(#reads) + 1 && #cur - old(#cur) == n ==> framed(pt, n, msg, old(#cur))
-//@   ensures[C08] twoReadsInPlace: err == nil && #reads == old(#reads) + 2 && #prevChunk + #lastChunk <= 4096 && #cur - old(#cur) == n ==> framed(pt, n, msg, old(#cur))
-//@   ensures[C08] twoReadsRealloc: err == nil && #reads == old(#reads) + 2 && #prevChunk <= 4096 && #prevChunk + #lastChunk > 4096 && #cur - old(#cur) == n ==> framed(pt, n, msg, old(#cur))
-//@   ensures[C08] atMostTwoReads: #reads <= old(#reads) + 2
-//@   ensures[C08] unframeable: err == nil ==> n >= 8
-//@   ensures[C08] coalesced: err == nil && #reads == old(#reads) + 1 ==> #cur - old(#cur) == n
-//@   ensures[C08] tail: err == nil && #reads == old(#reads) + 2 ==> #cur - old(#cur) == n
-//@   ensures[C08] bigFirst: err == nil && #reads == old(#reads) + 2 && #prevChunk > 4096 ==> framed(pt, n, msg, old(#cur))
-//@   ensures[C08] complete: err != nil ==> #readFailed || int(le32(#stream, old(#cur) + 4)) < 8
+//@   requires[C08] carried: pendingOK(*pending)
+//@   assigns[C07] *pending, #reads, #prevChunk, #lastChunk, #readFailed, #cur, #consumed
+//@   loop 0 invariant[C08] position: #consumed == old(#consumed) && 0 <= #consumed && #consumed <= #cur && #cur <= 0x1000000000000000 && len(buf) == #cur - #consumed
+//@   loop 0 invariant[C08] window: matches(buf, #stream, #consumed)
+//@   ghostset #consumed = ite(err == nil, old(#consumed) + n, old(#consumed))
+//@   ensures[C08] framed: err == nil ==> framed(pt, n, msg, old(#consumed)) && n <= 1048576
+//@   ensures[C08] nothingDropped: err == nil ==> pendingOK(*pending)
+//@   ensures[C08] complete: err != nil ==> #readFailed || int(le32(#stream, old(#consumed) + 4)) < 8 || int(le32(#stream, old(#consumed) + 4)) > 1048576
 //@   nopanic[C10]
 
 // ---------------------------------------------------------------- relay
@@ -196,7 +195,9 @@ package protocol
 //@   requires start: p.state == 0 && !#errSent && !#closeOK && !#hsOK && !#tcOK && !#taOK && !#ccOK && #dials == 0 && #fwd == 0 && #backend == nil && !#capsMatched && !#cookieOK && !#hostOK
 //@   requires wiring: #cookieRequired == (p.gw.CheckPAACookie != nil) && #hostRequired == (p.gw.CheckHost != nil)
 //@   requires[C07] ownTunnel: ctxTunnel(ctx) == p.tunnel
-//@   loop 0 invariant[C07] isolation: sameExcept("protocol.Tunnel.rwc", p.tunnel) && sameExcept("protocol.Tunnel.TargetServer", p.tunnel) && sameExcept("protocol.Tunnel.RemoteAddr", p.tunnel) && sameExcept("protocol.Tunnel.BytesSent", p.tunnel) && sameExcept("protocol.Tunnel.BytesReceived", p.tunnel) && sameExcept("protocol.Tunnel.LastSeen", p.tunnel) && sameExcept("protocol.Gateway.IdleTimeout", p.gw) && sameExcept("identity.User.userName", p.tunnel.User)
+//@   requires[C08] carried: pendingOK(p.tunnel.pending)
+//@   loop 0 invariant[C08] carried: pendingOK(p.tunnel.pending)
+//@   loop 0 invariant[C07] isolation: sameExcept("protocol.Tunnel.pending", p.tunnel) && sameExcept("protocol.Tunnel.rwc", p.tunnel) && sameExcept("protocol.Tunnel.TargetServer", p.tunnel) && sameExcept("protocol.Tunnel.RemoteAddr", p.tunnel) && sameExcept("protocol.Tunnel.BytesSent", p.tunnel) && sameExcept("protocol.Tunnel.BytesReceived", p.tunnel) && sameExcept("protocol.Tunnel.LastSeen", p.tunnel) && sameExcept("protocol.Gateway.IdleTimeout", p.gw) && sameExcept("identity.User.userName", p.tunnel.User)
 //@   loop 0 invariant[C01] phase: 0 <= p.state && p.state <= 5
 //@       && #hsOK == (p.state >= 1) && #tcOK == (p.state >= 2) && #taOK == (p.state >= 3) && #ccOK == (p.state >= 4)
 //@       && #dials == ite(p.state >= 4, 1, 0) && #fwd == #dials
@@ -205,10 +206,11 @@ package protocol
 //@       && (p.state >= 2 && #cookieRequired ==> #cookieOK)
 //@       && !#errSent && !#closeOK
 //@   loop 0 invariant[C16,C17] outcomes: #capsMatched == (p.state >= 1) && (p.state < 2 ==> !#cookieOK) && (p.state < 4 ==> !#hostOK)
+//@   assigns[C07] p.tunnel.pending
 //@   assigns[C07] p.state, p.tunnel.rwc, p.tunnel.TargetServer, p.tunnel.BytesSent, p.tunnel.BytesReceived, p.tunnel.LastSeen, p.gw.IdleTimeout
 //@   assigns[C07] p.tunnel.RemoteAddr, region(identity.User.userName) at p.tunnel.User
 //@   assigns #capsMatched, #capsClient, #hsMajor, #hsMinor, #hsExtAuth
-//@   assigns #errSent, #closeOK, #hsOK, #tcOK, #taOK, #ccOK, #cookieOK, #hostOK, #hostChecked, #reqServer, #reqPort, #dials, #dialAddr, #backend, #fwd, #lastType, #lastStatus, #relayed, #connWrite, #connWriteTo, #connWrites, #lastNow, #reads, #prevChunk, #lastChunk, #readFailed, #cur
+//@   assigns #errSent, #closeOK, #hsOK, #tcOK, #taOK, #ccOK, #cookieOK, #hostOK, #hostChecked, #reqServer, #reqPort, #dials, #dialAddr, #backend, #fwd, #lastType, #lastStatus, #relayed, #connWrite, #connWriteTo, #connWrites, #lastNow, #reads, #prevChunk, #lastChunk, #readFailed, #cur, #consumed
 //@   ensures[C01] once: #dials <= 1 && #fwd <= 1
 //@   ensures[C01] errorEnds: #errSent ==> result != nil
 //@   ensures[C01] cleanEnd: result == nil ==> #closeOK
@@ -225,11 +227,11 @@ package protocol
 
 // ---------------------------------------------------------------- HTTP handlers, registry, package state
 
-//@ define freshHistory() = !#errSent && !#closeOK && !#hsOK && !#tcOK && !#taOK && !#ccOK && #dials == 0 && #fwd == 0 && #backend == nil && !#capsMatched && !#cookieOK && !#hostOK
+//@ define freshHistory() = !#errSent && !#closeOK && !#hsOK && !#tcOK && !#taOK && !#ccOK && #dials == 0 && #fwd == 0 && #backend == nil && !#capsMatched && !#cookieOK && !#hostOK && #consumed == #cur && 0 <= #cur && #cur <= 0x1000000000000000
 //@ define pkgReady() = connectionCache != nil && websocketConnections != nil && legacyConnections != nil && c != nil && c.cache != nil
 // every cached tunnel is stored under its own connection identifier (C07: IN and OUT pair only on equal identifiers)
 //@ define cachedTunnel(k) = dyn(cacheVal(c.cache, k), ptr(Tunnel))
-//@ define tunnelCacheInv() = (forall k string :: cacheHas(c.cache, k) ==> typeIs(cacheVal(c.cache, k), ptr(Tunnel)) && cachedTunnel(k) != nil && allocated(cachedTunnel(k)) && cachedTunnel(k).RDGId == k && cachedTunnel(k).User != nil && dyn(cachedTunnel(k).User, ptr(identity.User)) != nil && allocated(dyn(cachedTunnel(k).User, ptr(identity.User))))
+//@ define tunnelCacheInv() = (forall k string :: cacheHas(c.cache, k) ==> typeIs(cacheVal(c.cache, k), ptr(Tunnel)) && cachedTunnel(k) != nil && allocated(cachedTunnel(k)) && cachedTunnel(k).RDGId == k && (cachedTunnel(k).transportIn == nil ==> len(cachedTunnel(k).pending) == 0) && cachedTunnel(k).User != nil && dyn(cachedTunnel(k).User, ptr(identity.User)) != nil && allocated(dyn(cachedTunnel(k).User, ptr(identity.User))))
 //@ define idOf(ctx) = dyn(ctxval(ctx, identity.CTXKey), ptr(identity.User))
 //@ define hasIdentity(ctx) = typeIs(ctxval(ctx, identity.CTXKey), ptr(identity.User)) && idOf(ctx) != nil && idOf(ctx).attributes != nil
 
@@ -257,6 +259,7 @@ package protocol
 //@   requires[C10] wf: g != nil && c != nil && t != nil && t.User != nil && dyn(t.User, ptr(identity.User)) != nil && pkgReady()
 //@   requires[C07] ownTunnel: ctxTunnel(ctx) == t
 //@   requires start: freshHistory() && #cookieRequired == (g.CheckPAACookie != nil) && #hostRequired == (g.CheckHost != nil)
+//@   requires[C08] nothingBuffered: len(t.pending) == 0
 //@   assigns *
 //@   requires[C07] keyed: tunnelCacheInv()
 //@   ensures[C07] keyed: tunnelCacheInv()
@@ -272,6 +275,7 @@ package protocol
 //@   requires[C10] wf: g != nil && w != nil && r != nil && t != nil && t.User != nil && dyn(t.User, ptr(identity.User)) != nil && pkgReady() && hasIdentity(reqctx(r))
 //@   requires[C07] ownTunnel: ctxTunnel(reqctx(r)) == t
 //@   requires start: freshHistory() && #cookieRequired == (g.CheckPAACookie != nil) && #hostRequired == (g.CheckHost != nil)
+//@   requires[C08] nothingBuffered: t.transportIn == nil ==> len(t.pending) == 0
 //@   requires[C07] keyed: tunnelCacheInv()
 //@   assigns *
 //@   ensures[C07] keyed: tunnelCacheInv()
@@ -288,6 +292,9 @@ package protocol
 //@   requires[C10] remoteAddr: mapHas(idOf(reqctx(r)).attributes, "remoteAddr") && typeIs(idOf(reqctx(r)).attributes["remoteAddr"], string)
 //@   requires start: freshHistory() && #cookieRequired == (g.CheckPAACookie != nil) && #hostRequired == (g.CheckHost != nil)
 //@   requires[C07] keyed: tunnelCacheInv()
+// assumed: the request is the first reader of the tunnel it addresses (a connection id whose IN channel
+// has already been served belongs to a tunnel that has ended; reusing it is outside C08)
+//@   requires[C08] firstReader: forall k string :: cacheHas(c.cache, k) ==> len(cachedTunnel(k).pending) == 0
 //@   assigns *
 //@   ensures[C07] keyed: tunnelCacheInv()
 //@   site context.WithValue requires[C07] keyedAfterAlloc: tunnelCacheInv()
